@@ -54,6 +54,7 @@ def justification : List ((String × String × String) × Why) := [
   (("genericTask.run$1", "send", "m.response"), .bufferedReply),
   (("subProcess.run$1", "send", "m.response"), .bufferedReply),
   (("taskTrace.process", "send", "t.response"), .bufferedReply),
+  (("Process.WaitUntilComplete$1", "send", "signal"), .bufferedReply),   -- buffered since the fix of D2 (3a1abd8)
   (("catchEvent.NextAction", "send", "evt.mch"), .inbox),
   (("catchEvent.ConsumeEvent", "send", "evt.mch"), .inbox),
   (("endEvent.NextAction", "send", "evt.mch"), .inbox),
